@@ -19,6 +19,7 @@ from framework import Prop
 ID = "c14_id"
 T64 = "memref<16xi64>"
 T32 = "memref<16xi32>"
+T8 = "memref<16xi8>"
 TT = "tensor<16xi32>"
 FUEL = 6
 
@@ -29,7 +30,7 @@ FUEL = 6
 
 def _dart(ind, acc, ty, first_generic=True, kernel="kernel.add"):
     mt = f"memref<16x{ty}>"
-    a, b, c = ("%a", "%b", "%c") if ty == "i64" else ("%x", "%y", "%z")
+    a, b, c = {"i64": ("%a", "%b", "%c"), "i32": ("%x", "%y", "%z"), "i8": ("%p", "%q", "%r")}[ty]
     accp = f', accelerator = "{acc}"' if acc else ""
     pre = f'{ind}    "test.op"() : () -> ()\n' if not first_generic else ""
     return (
@@ -44,6 +45,28 @@ def _dart(ind, acc, ty, first_generic=True, kernel="kernel.add"):
         f'{ind}    }}) : (!dart.stream<{ty}>, !dart.stream<{ty}>) -> !dart.stream<{ty}>\n'
         f'{ind}    dart.yield %s3 : !dart.stream<{ty}>\n'
         f'{ind}  }}) : ({mt}, {mt}, {mt}) -> ()'
+    )
+
+
+MEM_OF = {"i64": ("%a", "%b"), "i32": ("%x", "%y"), "i8": ("%p", "%q")}
+
+
+def _dart_rescale(ind, acc, tin, tout):
+    """a streaming region with one input and one output whose kernel is kernel.rescale (tin) -> tout"""
+    src = MEM_OF[tin][0]
+    dst = MEM_OF[tout][1]
+    return (
+        f'{ind}"dart.operation"({src}, {dst}) <{{patterns = [affine_map<(d0) -> (d0)>, affine_map<(d0) -> (d0)>], '
+        f'accelerator = "{acc}", operandSegmentSizes = array<i32: 1, 1>}}> ({{\n'
+        f'{ind}  ^bb0(%s0 : !dart.stream<{tin}>, %s1 : !dart.stream<{tout}>):\n'
+        f'{ind}    %s2 = "dart.generic"(%s0) <{{library_call = "k"}}> ({{\n'
+        f'{ind}    ^bb1(%k0 : {tin}, %k1 : {tout}):\n'
+        f'{ind}      %k2 = kernel.rescale %k0 {{input_zp = 0 : i32, output_zp = 0 : i32, multiplier = array<i32: 1>, '
+        f'shift = array<i32: 1>, max_int = 127 : i32, min_int = -128 : i32, double_round = true}} : ({tin}) -> {tout}\n'
+        f'{ind}      dart.yield %k2 : {tout}\n'
+        f'{ind}    }}) : (!dart.stream<{tin}>) -> !dart.stream<{tout}>\n'
+        f'{ind}    dart.yield %s2 : !dart.stream<{tout}>\n'
+        f'{ind}  }}) : (memref<16x{tin}>, memref<16x{tout}>) -> ()'
     )
 
 
@@ -77,6 +100,10 @@ class Render:
             return _dart(ind, "snax_xdma", "i32")
         if k == "xadd64":
             return _dart(ind, "snax_xdma", "i64")
+        if k == "xresc":  # ["xresc", tin, tout, accelerator]: kernel.rescale on the xDMA (or elsewhere) for every type combination
+            return _dart_rescale(ind, node[3], node[1], node[2])
+        if k == "xadd8":
+            return _dart(ind, "snax_xdma", "i8")
         if k == "xmul32":
             return _dart(ind, "snax_xdma", "i32", kernel="kernel.mul")
         if k == "xnogen":
@@ -161,13 +188,13 @@ class Render:
             else:
                 raise ValueError("bad term")
         vis_kw = f"{vis} " if vis else ""
-        hdr = (f"func.func {vis_kw}@{name}(%a : {T64}, %b : {T64}, %c : {T64}, %x : {T32}, %y : {T32}, %z : {T32}, %t : {TT}, "
+        hdr = (f"func.func {vis_kw}@{name}(%a : {T64}, %b : {T64}, %c : {T64}, %x : {T32}, %y : {T32}, %z : {T32}, %p : {T8}, %q : {T8}, %r : {T8}, %t : {TT}, "
                f"%c0 : i1, %c1 : i1, %lb : index, %ub : index, %st : index) {{\n")
         return hdr + "\n".join(body) + "\n}\n"
 
 
-ARG_TYPES = [T64, T64, T64, T32, T32, T32, TT, "i1", "i1", "index", "index", "index"]
-ARG_NAMES = ["%a", "%b", "%c", "%x", "%y", "%z", "%t", "%c0", "%c1", "%lb", "%ub", "%st"]
+ARG_TYPES = [T64, T64, T64, T32, T32, T32, T8, T8, T8, TT, "i1", "i1", "index", "index", "index"]
+ARG_NAMES = ["%a", "%b", "%c", "%x", "%y", "%z", "%p", "%q", "%r", "%t", "%c0", "%c1", "%lb", "%ub", "%st"]
 
 
 def case_funcs(case):
@@ -194,7 +221,8 @@ def render(case):
 # generator
 # ------------------------------------------------------------------------------------------------
 
-LEAVES = [("copy", 22), ("gen", 16), ("alu", 6), ("xadd32", 6), ("xadd64", 3), ("xmul32", 2), ("xnogen", 3), ("gent", 3),
+LEAVES = [("copy", 20), ("gen", 15), ("alu", 5), ("xadd32", 5), ("xadd64", 2), ("xadd8", 1), ("xmul32", 2), ("xnogen", 3), ("gent", 3),
+          ("xresc", 12),
           ("sync", 4), ("op", 35)]
 
 
@@ -210,6 +238,11 @@ def gen_leaf(rng, mal):
         return ["op", rng.choice([0, 0, 1, 1, 2]), rng.choice([0, 0, 1, 2])]
     if k == "gent":
         return ["gent", rng.random() < 0.5]
+    if k == "xresc":
+        # the two extension kernels (down i32->i8, up i8->i32) get most of the weight, the other combinations the rest
+        tin, tout = rng.choice([("i32", "i8"), ("i32", "i8"), ("i8", "i32"), ("i8", "i32"), ("i32", "i32"), ("i8", "i8"),
+                                ("i64", "i8"), ("i32", "i64")])
+        return ["xresc", tin, tout, "snax_xdma" if rng.random() < 0.85 else "snax_alu"]
     return [k]
 
 
@@ -623,14 +656,23 @@ def real_rules(func_op):
     return out
 
 
-# kernels provided by xDMA streamer extensions (accelerators/streamers/extensions/*: AddExtension, RescaleDown/UpExtension),
-# written down here independently of XDMA_EXT_SET: (kernel op name, operand types + result types)
-EXT_KERNELS = {("kernel.add", ("i32", "i32", "i32")), ("kernel.rescale", ("i32", "i8")), ("kernel.rescale", ("i8", "i32"))}
+def declared_dm_kernels(acc_name):
+    """the kernels the accelerator itself declares to provide through its streamer extensions
+    (SNAXXDMAAccelerator.supported_kernels, collected from the extensions of its streamers) -- taken from the accelerator
+    object, not from dispatching_rules.py / XDMA_EXT_SET"""
+    from snaxc.accelerators.snax_xdma import SNAXXDMAAccelerator
+    ctx = the_ctx()
+    if acc_name not in ctx.registered_accelerator_names:
+        return None
+    acc = ctx.get_acc(acc_name)
+    return list(acc.supported_kernels) if isinstance(acc, SNAXXDMAAccelerator) else None
 
 
 def spec_class(op):
     """who should execute the op according to the PROPERTY, independent of dispatching_rules.py:
-    'dm' = data movement, 'cp' = accelerator/compute, 'all' = every core"""
+    'dm' = data movement, 'cp' = accelerator/compute, 'all' = every core. A streaming region on the xDMA whose kernel
+    is one of the kernels the xDMA accelerator declares (its extensions) is data-mover work; every other streaming
+    region names an accelerator and is compute work."""
     if op.name == "memref.copy":
         return "dm"
     if op.name == "linalg.generic":
@@ -638,12 +680,25 @@ def spec_class(op):
     from snaxc.dialects import dart
     if isinstance(op, dart.StreamingRegionOpBase):
         first = op.body.block.first_op
-        if op.accelerator and op.accelerator.data == "snax_xdma" and first is not None and first.name == "dart.generic":
+        kernels = declared_dm_kernels(op.accelerator.data) if op.accelerator else None
+        if kernels is not None and first is not None and first.name == "dart.generic":
             k = first.body.block.first_op
-            if k is not None and (k.name, tuple(str(t) for t in [*k.operand_types, *k.result_types])) in EXT_KERNELS:
+            if k is not None and any(sk.is_same_kernel(k) for sk in kernels):
                 return "dm"
         return "cp"
     return "all"
+
+
+def kernel_sig(op):
+    """(kernel op name, operand + result types) of the kernel of a streaming region, None if its body is not a dart.generic"""
+    from snaxc.dialects import dart
+    first = op.body.block.first_op
+    if not isinstance(first, dart.GenericOp):
+        return None
+    k = first.body.block.first_op
+    if k is None:
+        return None
+    return [k.name, [str(t) for t in [*k.operand_types, *k.result_types]]]
 
 
 def rule_outcome(fn, op):
@@ -714,7 +769,8 @@ class C14(Prop):
             "ones at any depth) and optionally an external declaration (which may be called); every (visibility x small body), "
             "caller/callee visibility pair and declaration module enumerated on every run; per function: 1-3 (thorough 1-4) blocks with cf.br/cf.cond_br incl. back edges, nested scf.if (with/without else, "
             "with results) / scf.for / unknown ops with 1-3 regions, leaves memref.copy, linalg.generic (memref and tensor form), "
-            "dart.operation on snax_alu / snax_xdma (extension kernel, other kernel, non-generic body), cluster_sync, test.op with "
+            "dart.operation on snax_alu / snax_xdma (every extension kernel: rescale i32->i8, rescale i8->i32, add i32; non-matching type "
+            "combinations and other kernels; non-generic body; all kernel x type x accelerator combinations enumerated every run), cluster_sync, test.op with "
             "results and uses, runs of adjacent equal ops; nb_cores 1..5; malformed stream: streaming regions without / with an "
             "unregistered accelerator, blocks without terminator; non-trivial = at least one dispatchable op and (a region op or "
             ">= 2 blocks)")
@@ -725,6 +781,7 @@ class C14(Prop):
             yield gen_case(random.Random(rng.getrandbits(48)), tier, mal=(i % 12 == 11))
         yield from self.upstream()
         yield from self.visibilities()
+        yield from self.xdma_kernels()
         if tier == "thorough":
             yield from self.exhaustive()
 
@@ -743,6 +800,16 @@ class C14(Prop):
             if src.strip():
                 for nb in (2, 3):
                     yield {"kind": "upstream", "src": src, "nb": nb, "xseed": i}
+
+    def xdma_kernels(self):
+        """every kernel x type combination on the xDMA (the extension kernels rescale down i32->i8, rescale up i8->i32, add i32
+        and all the non-matching combinations), the same kernels on another accelerator, alone and inside a loop next to a copy"""
+        leaves = [["xresc", ti, to, acc] for ti in ("i8", "i32", "i64") for to in ("i8", "i32", "i64") for acc in ("snax_xdma", "snax_alu")]
+        leaves += [["xadd8"], ["xadd32"], ["xadd64"], ["xmul32"], ["xnogen"], ["alu"]]
+        for i, lf in enumerate(leaves):
+            yield {"kind": "xdmak", "blocks": [{"ops": [lf], "term": ["ret"]}], "nb": 2, "xseed": 30 + i}
+            yield {"kind": "xdmak", "blocks": [{"ops": [["copy"], ["for", [lf, ["op", 0, 0], lf]], ["gen"]], "term": ["ret"]}], "nb": 3,
+                   "xseed": 60 + i}
 
     def visibilities(self):
         """every visibility (public / private / no keyword) x {copy, gen, copy in a loop} for a single function, a caller/callee
@@ -797,9 +864,17 @@ class C14(Prop):
                 d = descriptor(op)
                 if d != ["other"] or not op.regions:
                     rules.append([i, d, rule_outcome(dispatch_to_dm, op), rule_outcome(dispatch_to_compute, op)])
+        from snaxc.dialects import dart
+        # kernel signature of every streaming region with a generic body + the REAL per-extension is_same_kernel results
+        ksigs = []
+        for op in mod.walk():
+            if get_id(op) is not None and isinstance(op, dart.StreamingRegionOpBase):
+                sig = kernel_sig(op)
+                if sig is not None:
+                    ksigs.append([get_id(op)] + sig + [descriptor(op)[3]])
         nb = case["nb"]
         orig = mod.clone()
-        base = {"names": names, "inputs": inputs, "rules": rules}
+        base = {"names": names, "inputs": inputs, "rules": rules, "ksigs": ksigs}
         try:
             apply_dispatch(mod, nb)
         except BaseException as e:
@@ -838,6 +913,8 @@ class C14(Prop):
             # ... and the right-hand side of C14_dispatch on the input (the theorem instance itself)
             reqs.append({"fn": "c14.filtered", "args": {"func": impl_out["inputs"][fi], "nb": case["nb"] if core >= 0 else 1,
                                                        "core": max(core, 0), "seed": s, "fuel": FUEL, "entry": 0}})
+        for k in impl_out["ksigs"]:  # last: the Lean table of extension kernels against XDMA_EXT_SET's is_same_kernel
+            reqs.append({"fn": "c14.matches", "args": {"name": k[1], "tys": k[2]}})
         return reqs
 
     def model(self, case, answers, impl_out):
@@ -852,7 +929,13 @@ class C14(Prop):
             rules.append([r[0], r[1], a["ok"]["dm"], a["ok"]["cp"]])
             if r[1][0] == "stream" and r[1][2] and False not in r[1][3]:
                 return {"model_error": "hypothesis OneExtDiffers of rules_exclusive / rules_match_spec_partial does not hold for XDMA_EXT_SET"}
-        base = {"names": impl_out["names"], "inputs": impl_out["inputs"], "rules": rules}
+        nk = len(impl_out["ksigs"])
+        ksigs = []
+        for k, a in zip(impl_out["ksigs"], answers[len(answers) - nk:] if nk else []):
+            if "err" in a:
+                return {"model_error": a["err"]}
+            ksigs.append([k[0], k[1], k[2], a["ok"]])
+        base = {"names": impl_out["names"], "inputs": impl_out["inputs"], "rules": rules, "ksigs": ksigs}
         outs = []
         decl = False
         for d in answers[nr:nr + nf]:
@@ -912,7 +995,14 @@ class C14(Prop):
                                             f"but is claimed by neither dispatching rule: it executes on every core (op {i}, {op.name})",
                                     "finding": "DC14a"})
                 else:
-                    return [{"what": f"op {i} ({op.name}) is classified '{got}' by the dispatching rules; the property says '{want}'",
+                    from snaxc.dialects import dart
+                    what = op.name
+                    if isinstance(op, dart.StreamingRegionOpBase):
+                        sig = kernel_sig(op)
+                        what += f" on {op.accelerator.data if op.accelerator else None}" + (f", kernel {sig[0]} {sig[1]}" if sig else "")
+                    runs = {"all": "it is left unguarded and executes on EVERY core", "dm": f"it executes only on the data-mover core {nb - 1}",
+                            "cp": "it executes only on compute core 0", "dm+cp": "it is guarded twice and executes on no core"}[got]
+                    return [{"what": f"op {i} ({what}) is classified '{got}' by the dispatching rules, so {runs}; the property says '{want}'",
                              "finding": None}]
         from xdsl.dialects import arith
         from xdsl.dialects import func as fdial
